@@ -13,6 +13,8 @@ Each generated function comes as
 
 API
     gen(seed, charsigned, n)  -> list of (c_text, sexpr, func_name, args_samples)
+    gen2(seed, charsigned, n) -> the same for fragment F2 (function bodies with statements; see below),
+                                 with the statement-kind histogram as a fifth component
     alpha(text)               -> text with temporaries/labels renamed by first occurrence
     split_funcs(cproc_stdout) -> list of per-function texts ("export\nfunction ... }\n")
     ret_type_of(sexpr), ret_matches(ret_ty, c_value, il_ret_value)
@@ -219,6 +221,7 @@ class Gen:
         self.ptys = ptys
         self.allow_cond = allow_cond
         self.allow_logic = allow_logic
+        self.vars = None          # F2: indices of the variables an expression may read
 
     def const(self):
         r = self.rng
@@ -240,6 +243,10 @@ class Gen:
     def expr(self, d):
         r = self.rng
         if d <= 0 or r.random() < 0.15:
+            if self.vars is not None:
+                if self.vars and r.random() < 0.7:
+                    return ('P', r.choice(self.vars))
+                return self.const()
             if self.ptys and r.random() < 0.7:
                 return ('P', r.randrange(len(self.ptys)))
             return self.const()
@@ -362,6 +369,333 @@ def gen(seed, charsigned, n, nargs=4, prefix='f'):
     return res
 
 
+# ---------------------------------------------------------------------------------------- fragment F2
+# Function bodies with statements (lean/CprocVerif/Model/CSem2.lean, Model/Lower2.lean; S-expression syntax at
+# the head of lean/Drv/C01.lean).  Variable k is called `p<k>` in the C text: parameters 0..n-1, then the
+# block-scope objects in the order of their declarations (every declaration is a new variable).
+# Typed tree of the statements, as stmt.c / decl.c / expr.c build it:
+#   `T x = e;`  (decl k T conv(e,T))            parseinit -> exprassign
+#   `x = e;`    (set k T conv(e,T))             mkassignexpr -> exprconvert
+#   `x op= e;`  (set k T conv(mkbinary(op, x, e), T))   assignexpr: tmp = &x, *tmp = *tmp op e; for an identifier
+#                                               the lowering of &x / *tmp is the slot of x itself
+#   `x++; ++x;` (inc k T)   `x--; --x;` (dec k T)        EXPRINCDEC, value unused
+#   `return e;` (ret conv(e,RET))               exprassign to the return type
+#   `for (init; c; step) body`  (for INIT COND STEP BODY), a missing clause is (skip) / (none)
+STMT_KINDS = ['decl', 'decl-init', 'set', 'opset', 'inc', 'dec', 'expr', 'ret', 'block', 'if', 'ifelse', 'while',
+              'do', 'for', 'break', 'continue', 'skip']
+OPSET = ['mul', 'div', 'mod', 'add', 'sub', 'shl', 'shr', 'and', 'or', 'xor']
+CNT_TYS = ['i', 'u', 'l', 'ul', 's', 'us', 'uc', 'sc', 'c', 'll', 'ull']
+
+
+class Gen2:
+    """one function body; `level`: 'A' straight-line, 'B' + if/else and ++/--, 'C' + loops, break, continue"""
+
+    def __init__(self, rng, ptys, ret, level='C'):
+        self.rng = rng
+        self.vtys = list(ptys)
+        self.rty = ret
+        self.level = level
+        self.init = set(range(len(ptys)))     # variables certainly holding a value here
+        self.ro = set()                       # loop counters: readable, never assigned by generated statements
+        self.hist = {}
+        self.g = Gen(rng, self.vtys)
+
+    def count(self, k):
+        self.hist[k] = self.hist.get(k, 0) + 1
+
+    def expr(self, scope, depth=None, risky=0.04):
+        r = self.rng
+        ok = [k for k in scope if k in self.init]
+        if r.random() < risky:
+            ok = list(scope)                  # may read an indeterminate object: the C semantics says `ub`
+        self.g.vars = ok
+        src = self.g.expr(r.randrange(0, 3) if depth is None else depth)
+        return src, parse(src, self.vtys)
+
+    def newvar(self, t):
+        self.vtys.append(t)
+        return len(self.vtys) - 1
+
+    def assignable(self, scope):
+        return [k for k in scope if k not in self.ro]
+
+    # every generator returns (list of (ctext, tree), terminated)
+    def simple(self, scope):
+        """one statement without sub-statements"""
+        r = self.rng
+        x = r.random()
+        av = self.assignable(scope)
+        if x < 0.22 or not av:
+            t = r.choice(TYS)
+            if r.random() < 0.7:
+                src, e = self.expr(scope)
+                k = self.newvar(t)
+                scope.append(k)
+                self.init.add(k)
+                self.count('decl-init')
+                return [('%s p%d = %s;' % (CNAME[t], k, ctext(src)), '(decl %d %s %s)' % (k, t, sx(conv(e, t))))]
+            k = self.newvar(t)
+            scope.append(k)
+            self.count('decl')
+            return [('%s p%d;' % (CNAME[t], k), '(decl %d %s)' % (k, t))]
+        if x < 0.55:
+            k = r.choice(av)
+            t = self.vtys[k]
+            src, e = self.expr(scope)
+            self.init.add(k)
+            self.count('set')
+            return [('p%d = %s;' % (k, ctext(src)), '(set %d %s %s)' % (k, t, sx(conv(e, t))))]
+        if x < 0.72:
+            ini = [k for k in av if k in self.init] or av
+            k = r.choice(ini)
+            t = self.vtys[k]
+            op = r.choice(OPSET)
+            src, e = self.expr(scope)
+            self.count('opset')
+            tree = conv(mkbinary(op, ('p', t, k), e), t)
+            return [('p%d %s= %s;' % (k, CSYM[op], ctext(src)), '(set %d %s %s)' % (k, t, sx(tree)))]
+        if x < 0.84 and self.level != 'A':
+            ini = [k for k in av if k in self.init and self.vtys[k] != 'b']
+            if ini:
+                k = r.choice(ini)
+                inc = r.random() < 0.5
+                self.count('inc' if inc else 'dec')
+                txt = r.choice(['p%d++;', '++p%d;'] if inc else ['p%d--;', '--p%d;']) % k
+                return [(txt, '(%s %d %s)' % ('inc' if inc else 'dec', k, self.vtys[k]))]
+        if x < 0.90:
+            src, e = self.expr(scope)
+            self.count('expr')
+            return [('%s;' % ctext(src), '(expr %s)' % sx(e))]
+        if x < 0.94:
+            self.count('skip')
+            return [(';', '(skip)')]
+        k = r.choice(av)
+        t = self.vtys[k]
+        src, e = self.expr(scope, 1)
+        self.init.add(k)
+        self.count('set')
+        return [('p%d = %s;' % (k, ctext(src)), '(set %d %s %s)' % (k, t, sx(conv(e, t))))]
+
+    def ret(self, scope):
+        src, e = self.expr(scope)
+        self.count('ret')
+        return ('return %s;' % ctext(src), '(ret %s)' % sx(conv(e, self.rty)))
+
+    def body(self, scope, depth, inloop, maxn=4):
+        """a braced statement list in a new scope: (ctext, tree, terminated)"""
+        scope = list(scope)
+        items, term = self.stmts(scope, depth, inloop, self.rng.randrange(0, maxn + 1))
+        return ('{ ' + ' '.join(c for c, _ in items) + ' }', '(block %s)' % ' '.join(t for _, t in items) if items
+                else '(block)', term)
+
+    def sub(self, scope, depth, inloop):
+        """the sub-statement of if/else/loops: a block, or one simple statement, or a jump"""
+        r = self.rng
+        x = r.random()
+        if x < 0.6:
+            self.count('block')
+            return self.body(scope, depth, inloop, 3)
+        if x < 0.72:
+            c, t = self.ret(scope)
+            return c, t, True
+        if x < 0.84 and inloop:
+            k = r.choice(['break', 'continue'])
+            self.count(k)
+            return k + ';', '(%s)' % k, True
+        av = self.assignable(scope)
+        if not av:
+            return ';', '(skip)', False
+        k = r.choice(av)
+        t = self.vtys[k]
+        src, e = self.expr(scope)
+        saved = set(self.init)
+        self.count('set')
+        self.init = saved            # a lone statement under a condition initialises nothing for later code
+        return 'p%d = %s;' % (k, ctext(src)), '(set %d %s %s)' % (k, t, sx(conv(e, t))), False
+
+    def counter(self, scope, start):
+        """declare and initialise a loop counter: statements + index"""
+        r = self.rng
+        t = r.choice(CNT_TYS)
+        k = self.newvar(t)
+        scope.append(k)
+        self.init.add(k)
+        self.ro.add(k)
+        if r.random() < 0.5:
+            self.count('decl-init')
+            return [('%s p%d = %d;' % (CNAME[t], k, start), '(decl %d %s %s)' % (k, t, sx(conv(('c', 'i', start), t))))], k
+        self.count('decl')
+        self.count('set')
+        return [('%s p%d;' % (CNAME[t], k), '(decl %d %s)' % (k, t)),
+                ('p%d = %d;' % (k, start), '(set %d %s %s)' % (k, t, sx(conv(('c', 'i', start), t))))], k
+
+    def step(self, k, up):
+        """ctext (without `;`) and tree of `k = k ± 1` in one of its spellings"""
+        r = self.rng
+        t = self.vtys[k]
+        x = r.randrange(3)
+        if x == 0:
+            self.count('inc' if up else 'dec')
+            return (r.choice(['p%d++', '++p%d']) if up else r.choice(['p%d--', '--p%d'])) % k, \
+                '(%s %d %s)' % ('inc' if up else 'dec', k, t)
+        op = 'add' if up else 'sub'
+        tree = conv(mkbinary(op, ('p', t, k), ('c', 'i', 1)), t)
+        if x == 1:
+            self.count('opset')
+            return 'p%d %s= 1' % (k, CSYM[op]), '(set %d %s %s)' % (k, t, sx(tree))
+        self.count('set')
+        return 'p%d = p%d %s 1' % (k, k, CSYM[op]), '(set %d %s %s)' % (k, t, sx(tree))
+
+    def cond_lt(self, k, n, scope):
+        """`p<k> < n`, sometimes `&& e`"""
+        r = self.rng
+        src = ('B', 'lt', ('P', k), ('K', n, str(n), True, ''))
+        if r.random() < 0.25:
+            self.g.vars = [j for j in scope if j in self.init]
+            src = ('B', 'land', src, self.g.expr(1))
+        return src, parse(src, self.vtys)
+
+    def loop(self, scope, depth):
+        r = self.rng
+        n = r.randrange(0, 4)
+        kind = r.choice(['while', 'while0', 'do', 'for', 'for', 'fordecl', 'forever'])
+        saved = None
+        out = []
+        if kind == 'fordecl':
+            # for (T i = 0; i < n; i++) body        the counter belongs to the scope of the for statement
+            inner = list(scope)
+            t = r.choice(CNT_TYS)
+            k = self.newvar(t)
+            inner.append(k)
+            self.init.add(k)
+            self.ro.add(k)
+            self.count('decl-init')
+            self.count('for')
+            csrc, ctree = self.cond_lt(k, n, inner)
+            stc, stt = self.step(k, True)
+            saved = set(self.init)
+            bc, bt, _ = self.sub(inner, depth - 1, True)
+            self.init = saved
+            return [('for (%s p%d = 0; %s; %s) %s' % (CNAME[t], k, ctext(csrc), stc, bc),
+                     '(for (decl %d %s %s) %s %s %s)' % (k, t, sx(conv(('c', 'i', 0), t)), sx(ctree), stt, bt))]
+        if kind == 'while0':
+            # p = n; while (p) { p--; ... }
+            pre, k = self.counter(scope, n)
+            out += pre
+            self.count('while')
+            src = ('P', k)
+            saved = set(self.init)
+            stc, stt = self.step(k, False)
+            bc, bt, _ = self.body(scope, depth - 1, True, 3)
+            self.init = saved
+            bt = '(block %s %s' % (stt, bt[len('(block '):]) if bt != '(block)' else '(block %s)' % stt
+            bc = '{ %s; %s' % (stc, bc[2:])
+            out.append(('while (%s) %s' % (ctext(src), bc), '(while %s %s)' % (sx(parse(src, self.vtys)), bt)))
+            return out
+        pre, k = self.counter(scope, 0)
+        out += pre
+        csrc, ctree = self.cond_lt(k, n, scope)
+        saved = set(self.init)
+        if kind == 'for':
+            self.count('for')
+            stc, stt = self.step(k, True)
+            bc, bt, _ = self.sub(scope, depth - 1, True)
+            self.init = saved
+            ini = r.random() < 0.5
+            out.append(('for (%s; %s; %s) %s' % ('p%d = 0' % k if ini else '', ctext(csrc), stc, bc),
+                        '(for %s %s %s %s)' % ('(set %d %s %s)' % (k, self.vtys[k], sx(conv(('c', 'i', 0), self.vtys[k])))
+                                               if ini else '(skip)', sx(ctree), stt, bt)))
+            return out
+        stc, stt = self.step(k, True)
+        bc, bt, _ = self.body(scope, depth - 1, True, 3)
+        self.init = saved
+        bt = '(block %s %s' % (stt, bt[len('(block '):]) if bt != '(block)' else '(block %s)' % stt
+        bc = '{ %s; %s' % (stc, bc[2:])
+        if kind == 'while':
+            self.count('while')
+            out.append(('while (%s) %s' % (ctext(csrc), bc), '(while %s %s)' % (sx(ctree), bt)))
+        elif kind == 'do':
+            self.count('do')
+            out.append(('do %s while (%s);' % (bc, ctext(csrc)), '(do %s %s)' % (bt, sx(ctree))))
+        else:
+            # for (;;) { if (!(p < n)) break; p++; ... }
+            self.count('for')
+            self.count('if')
+            self.count('break')
+            nsrc = ('U', '!', csrc)
+            guard_c = 'if (%s) break;' % ctext(nsrc)
+            guard_t = '(if %s (break))' % sx(parse(nsrc, self.vtys))
+            bt = '(block %s %s' % (guard_t, bt[len('(block '):])
+            bc = '{ %s %s' % (guard_c, bc[2:])
+            out.append(('for (;;) %s' % bc, '(for (skip) (none) (skip) %s)' % bt))
+        return out
+
+    def stmts(self, scope, depth, inloop, n):
+        """n statements appended to the current scope; stops after a jump statement"""
+        r = self.rng
+        items = []
+        for _ in range(n):
+            x = r.random()
+            if depth > 0 and self.level != 'A' and x < 0.30:
+                src, e = self.expr(scope)
+                saved = set(self.init)
+                ac, at, _ = self.sub(scope, depth - 1, inloop)
+                ia = self.init
+                self.init = set(saved)
+                if r.random() < 0.5:
+                    self.count('ifelse')
+                    bc, bt, _ = self.sub(scope, depth - 1, inloop)
+                    self.init = saved | (ia & self.init)
+                    items.append(('if (%s) %s else %s' % (ctext(src), ac, bc), '(ifelse %s %s %s)' % (sx(e), at, bt)))
+                else:
+                    self.count('if')
+                    self.init = saved
+                    items.append(('if (%s) %s' % (ctext(src), ac), '(if %s %s)' % (sx(e), at)))
+            elif depth > 0 and self.level == 'C' and x < 0.45:
+                items += self.loop(scope, depth)
+            elif depth > 0 and x < 0.52:
+                self.count('block')
+                c, t, term = self.body(scope, depth - 1, inloop, 3)
+                items.append((c, t))
+                if term:
+                    return items, True
+            elif x < 0.56 and (inloop or r.random() < 0.3):
+                if inloop and r.random() < 0.6:
+                    k = r.choice(['break', 'continue'])
+                    self.count(k)
+                    items.append((k + ';', '(%s)' % k))
+                else:
+                    items.append(self.ret(scope))
+                return items, True
+            else:
+                items += self.simple(scope)
+        return items, False
+
+
+def gen2(seed, charsigned, n, nargs=4, prefix='g', level='C'):
+    """n functions of fragment F2: list of (c_text, sexpr, func_name, args_samples, statement-kind histogram)"""
+    global CS
+    CS = bool(charsigned)
+    rng = random.Random(((int(seed) << 1) | (1 if charsigned else 0)) * 3 + 2)
+    res = []
+    for idx in range(n):
+        np_ = rng.randrange(0, 4)
+        ptys = [rng.choice(TYS) for _ in range(np_)]
+        ret = rng.choice(TYS)
+        g = Gen2(rng, ptys, ret, level)
+        scope = list(range(np_))
+        items, term = g.stmts(scope, rng.randrange(0, 3), False, rng.randrange(0, 6))
+        if not term:
+            items.append(g.ret(scope))
+        name = '%s%d' % (prefix, idx)
+        params = ', '.join('%s p%d' % (CNAME[t], i) for i, t in enumerate(ptys)) or 'void'
+        c = '%s %s(%s) { %s }' % (CNAME[ret], name, params, ' '.join(x for x, _ in items))
+        s = '(fn2 %s %s (%s) (%s) (block %s))' % (name, ret, ' '.join(ptys), ' '.join(g.vtys[np_:]),
+                                                 ' '.join(t for _, t in items))
+        res.append((c, s, name, _args(rng, ptys, nargs), g.hist))
+    return res
+
+
 def ret_type_of(sexpr):
     """the TY atom after the function name in `(fn NAME TY (...) ...)`"""
     return sexpr.split()[2]
@@ -406,4 +740,7 @@ if __name__ == '__main__':
     import sys
     for c, s, name, args in gen(int(sys.argv[1]) if len(sys.argv) > 1 else 0, True,
                                 int(sys.argv[2]) if len(sys.argv) > 2 else 5):
+        print(c); print(s); print(args)
+    for c, s, name, args, h in gen2(int(sys.argv[1]) if len(sys.argv) > 1 else 0, True,
+                                    int(sys.argv[2]) if len(sys.argv) > 2 else 5):
         print(c); print(s); print(args)
